@@ -9,7 +9,10 @@ pub mod glyfgraph;
 pub mod iftdrv;
 pub mod iftf1;
 pub mod iftf2;
+pub mod brotlifam;
 pub mod klipdrv;
+pub mod metafam;
+pub mod metafam2;
 pub mod skdrv;
 pub mod capfam;
 pub mod cff2prog;
@@ -39,6 +42,8 @@ pub fn drivers() -> Vec<(&'static str, Driver)> {
         ("colrgrad", colrgrad::drive as Driver),
         ("colridx", colridx::drive as Driver),
         ("iftf2", iftf2::drive as Driver),
+        ("metafam", metafam::drive as Driver),
+        ("brotli", brotlifam::drive as Driver),
     ]
 }
 
@@ -313,7 +318,7 @@ pub fn viol_identity(v: &Viol) -> String {
 pub fn narrow(case: &Value, sub: u64) -> Value {
     let mut c = case.clone();
     let batch = matches!(c["driver"].as_str(), Some("ttprog") | Some("cffprog") | Some("cff2prog")) && !c["o1"].is_null();
-    let batch = batch || (c["driver"] == "glyfgraph" && !c["s0"].is_null()) || c["driver"] == "capfam" || c["driver"] == "colrgrad" || c["driver"] == "colridx" || c["family"] == "format1_width" || c["driver"] == "iftf2";
+    let batch = batch || (c["driver"] == "glyfgraph" && !c["s0"].is_null()) || c["driver"] == "capfam" || c["driver"] == "colrgrad" || c["driver"] == "colridx" || c["family"] == "format1_width" || c["driver"] == "iftf2" || c["driver"] == "metafam" || c["driver"] == "brotli";
     if batch && c["only"].is_null() {
         c["only"] = json!(sub);
         if c["driver"] == "iftf2" {
@@ -330,6 +335,12 @@ pub fn narrow(case: &Value, sub: u64) -> Value {
         }
         if c["driver"] == "capfam" {
             c["described"] = json!(capfam::describe(&c));
+        }
+        if c["driver"] == "brotli" {
+            c["described"] = json!(brotlifam::describe(&c));
+        }
+        if c["driver"] == "metafam" {
+            c["described"] = json!(metafam::describe(&c));
         }
         if c["driver"] == "ttprog" {
             c["described"] = json!(ttprog::describe(&c));
@@ -348,7 +359,9 @@ pub fn resume_batch(case_json: &str, f: &Failure) -> Option<String> {
         || c["driver"] == "colrgrad"
         || c["driver"] == "colridx"
         || c["family"] == "format1_width"
-        || c["driver"] == "iftf2";
+        || c["driver"] == "iftf2"
+        || c["driver"] == "metafam"
+        || c["driver"] == "brotli";
     if !batch || !c["only"].is_null() {
         return None;
     }
@@ -546,6 +559,14 @@ pub fn phases(quick: bool) -> Result<Vec<Phase>, String> {
     // 2f. COLR index-width boundary family
     colridx::sanity().map_err(|e| format!("colridx template gate: {e}"))?;
     out.push(vec_phase("colridx", colridx::gen_cases(), 1, 0, vec![("colridx".into(), colridx::bounds())]));
+    // 2g. metadata boundary families (hand-assembled minimal fonts, every non-outline public skrifa API)
+    out.push(vec_phase("metafam", metafam::gen_cases(quick), 1, 0, vec![("metafam".into(), metafam::bounds(quick))]));
+    // 2h. the real shared-brotli decoder on hostile streams / dictionaries / output bounds
+    // (not in the strict-profile re-run of c20: the decoder is C code behind a wrapper without arithmetic, and its
+    // one finding on the unchanged tree -- the unchecked output-bound pre-allocation -- is a C02 matter)
+    if !cfg!(debug_assertions) {
+        out.push(vec_phase("brotli", brotlifam::gen_cases(), 1, 0, vec![("brotli".into(), brotlifam::bounds())]));
+    }
     // 2c. klippa subsetter (observations in C02, judged by C20)
     let (ksize, kbytes) = if quick { (8 << 10, 32) } else { (64 << 10, 128) };
     let mut kl = gen_klippa_cases(ksize, kbytes, !quick);
